@@ -2,16 +2,40 @@
 """Rewrites the per-template theorem blocks (after the marker line) of Props/C16.lean, Props/C06Templates.lean and
 Props/C07Templates.lean for all 21 templates x N_VARIANTS parameter points. Expected values are the verdicts on the
 unchanged tree (false = recorded finding / analysis not applicable), see DESIGN.md §12."""
-import os, re
+import os, re, subprocess
 ROOT = os.path.dirname(os.path.abspath(__file__))
 T = ["real_ga", "binary_ga", "real_es", "real_de", "real_pso", "real_sa", "permutation_sa", "real_ls", "permutation_ls",
      "real_ils", "permutation_ils", "real_rs", "permutation_rs", "real_rw", "permutation_rw", "real_iwo", "real_fa",
      "real_bh", "real_cro", "ant_system", "max_min_ant_system"]
 NV = 4
 MARK = "/-! ### Per-template obligations on the regenerated trees -/"
+
+
+def prescribed():
+    """(template, variant) -> (lo, hi|None) as `hcommon::templates::prescribed_size` returns them (`c16 --prescribed`)."""
+    exe = os.path.join(ROOT, "harness", "target", "debug", "c16")
+    out = subprocess.run([exe, "--prescribed"], capture_output=True, text=True, check=True).stdout
+    r = {}
+    for m in re.finditer(r"\(prescribed (\w+) (\d+) (\d+) (\w+)\)", out):
+        r[(m.group(1), int(m.group(2)))] = (int(m.group(3)), None if m.group(4) == "inf" else int(m.group(4)))
+    assert len(r) == len(T) * NV, "run `cargo build --offline --bin c16` in harness/ first"
+    return r
+
+
+PRESCRIBED = prescribed()
+
+
+def size_thm(t, v):
+    lo, hi = PRESCRIBED[(t, v)]
+    # the two ILS templates leak one population per pass: no invariant exists, the (incomplete) analysis answers false
+    val = "false" if "ils" in t else "true"
+    return f"theorem {t}_v{v}_size : sizeWithin {t}_v{v} {lo} {'none' if hi is None else f'(some {hi})'} = {val} := by decide"
+
+
 FILES = {
+    "C16Size.lean": ("MahfModel.Props.C16.Size", size_thm),
     "C16.lean": ("MahfModel.Props.C16", lambda t, v: f"theorem {t}_v{v}_balanced : balanced {t}_v{v} = {'false' if 'ils' in t else 'true'} := by decide"),
-    "C06Templates.lean": ("MahfModel.Props.C06.Templates", lambda t, v: f"theorem {t}_v{v}_counter_exact : counterExact {t}_v{v} = {'false' if 'ils' in t else 'true'} := by decide"),
+    "C06Templates.lean": ("MahfModel.Props.C06.Templates", lambda t, v: f"theorem {t}_v{v}_counter_exact : counterExactTop {t}_v{v} = {'false' if 'ils' in t else 'true'} := by decide"),
     "C07Templates.lean": ("MahfModel.Props.C07.Templates", lambda t, v: f"theorem {t}_v{v}_etu : evalThenUpdate {t}_v{v} = {'false' if ('ils' in t or t == 'real_fa') else 'true'} := by decide"),
 }
 for f, (ns, thm) in FILES.items():
